@@ -10,7 +10,8 @@ CONSTANTS
   Leaky = FALSE
   Alphabet <- CoreCmds
   Kinds <- AllKinds
+  Ctxs <- MainCtx
 INIT Init
 NEXT Next
-INVARIANTS EntryIsForkImage TrapRule SharedDescriptions Final Emit
+INVARIANTS NoForeignTrapAction EntryIsForkImage TrapRule SharedDescriptions Final Emit
 PROPERTIES Isolation CopyNotReference
